@@ -107,6 +107,8 @@ package riscv
 
 //@ func AsString
 //@   trusted
+//@ func AsmSyntax
+//@   trusted
 
 //@ func EncodeRV64
 //@   results w, err
@@ -194,4 +196,27 @@ package riscv
 //@   ensures[Bops]  err == nil && d_op(x) == 0x63 ==> arg.Rs1 == xreg(d_rs1(x)) && arg.Rs2 == xreg(d_rs2(x)) && arg.Imm == int32(d_immB(x))
 //@   ensures[Uops]  err == nil && (d_op(x) == 0x37 || d_op(x) == 0x17) ==> arg.Rd == xreg(d_rd(x)) && arg.Imm == int32(d_immU(x))
 //@   ensures[Jops]  err == nil && d_op(x) == 0x6f ==> arg.Rd == xreg(d_rd(x)) && arg.Imm == int32(d_immJ(x))
+// the raw operands handed to the emulators (machine register numbers, the same immediates)
+//@   ensures[rawR]  err == nil && (d_op(x) == 0x33 || d_op(x) == 0x3b) ==> argRaw.Rd == d_rd(x) && argRaw.Rs1 == d_rs1(x) && argRaw.Rs2 == d_rs2(x)
+//@   ensures[rawI]  err == nil && (d_op(x) == 0x13 || d_op(x) == 0x1b || d_op(x) == 0x67 || d_op(x) == 0x03 || d_op(x) == 0x0f) ==> argRaw.Rd == d_rd(x) && argRaw.Rs1 == d_rs1(x)
+//@   ensures[rawIimm] err == nil && (d_op(x) == 0x13 || d_op(x) == 0x1b || d_op(x) == 0x67 || d_op(x) == 0x03 || d_op(x) == 0x0f) && !is_shift_word(x) ==> argRaw.Imm == int32(d_immI(x))
+//@   ensures[rawsh6] err == nil && d_op(x) == 0x13 && (d_f3(x) == 1 || d_f3(x) == 5) ==> argRaw.Imm == int32(d_sh6(x))
+//@   ensures[rawsh5] err == nil && d_op(x) == 0x1b && (d_f3(x) == 1 || d_f3(x) == 5) ==> argRaw.Imm == int32(d_rs2(x))
+//@   ensures[rawS]  err == nil && d_op(x) == 0x23 ==> argRaw.Rs1 == d_rs1(x) && argRaw.Rs2 == d_rs2(x) && argRaw.Imm == int32(d_immS(x))
+//@   ensures[rawB]  err == nil && d_op(x) == 0x63 ==> argRaw.Rs1 == d_rs1(x) && argRaw.Rs2 == d_rs2(x) && argRaw.Imm == int32(d_immB(x))
+//@   ensures[rawU]  err == nil && (d_op(x) == 0x37 || d_op(x) == 0x17) ==> argRaw.Rd == d_rd(x) && argRaw.Imm == int32(d_immU(x))
+//@   ensures[rawJ]  err == nil && d_op(x) == 0x6f ==> argRaw.Rd == d_rd(x) && argRaw.Imm == int32(d_immJ(x))
+//@   ensures[nonnil] err == nil ==> arg != nil && argRaw != nil
+//@   ensures[rawrange] err == nil ==> argRaw.Rd < 32 && argRaw.Rs1 < 32 && argRaw.Rs2 < 32
+//@   ensures[asinv] foreach k in keys(_AOpContextTable) where isa(k) != 0 :: err == nil && as == k ==> isa_match(k, x)
 //@   property C17
+
+//@ spec imm_of(k abi.As, w uint32) int32 :=
+//@   ite(isa_fmt(k) == 5, int32(d_immU(w)), ite(isa_fmt(k) == 6, int32(d_immJ(w)), ite(isa_fmt(k) == 4, int32(d_immB(w)),
+//@   ite(isa_fmt(k) == 3, int32(d_immS(w)), ite(isa_fmt(k) == 7, int32(d_sh6(w)), ite(isa_fmt(k) == 8, int32(d_rs2(w)), int32(d_immI(w))))))))
+
+// which operand fields an instruction of mnemonic k uses (by ISA format)
+//@ spec uses_rd(k abi.As) bool := isa_fmt(k) == 1 || isa_fmt(k) == 2 || isa_fmt(k) == 5 || isa_fmt(k) == 6 || isa_fmt(k) == 7 || isa_fmt(k) == 8
+//@ spec uses_rs1(k abi.As) bool := isa_fmt(k) == 1 || isa_fmt(k) == 2 || isa_fmt(k) == 3 || isa_fmt(k) == 4 || isa_fmt(k) == 7 || isa_fmt(k) == 8
+//@ spec uses_rs2(k abi.As) bool := isa_fmt(k) == 1 || isa_fmt(k) == 3 || isa_fmt(k) == 4
+//@ spec uses_imm(k abi.As) bool := isa_fmt(k) != 1 && isa_fmt(k) != 9
